@@ -235,8 +235,10 @@ def run_check(pid, tier, seed, inline=False, only=None):
     for key, e in sorted(seen_known.items()):
         print(f"KNOWN-FINDING: property={pid} {key}: {e['what']}")
     res.info["known_findings_seen"] = sorted(seen_known)
-    if unknown:
-        os.makedirs(REPLAY_DIR, exist_ok=True)
+    os.makedirs(REPLAY_DIR, exist_ok=True)
+    for fn in os.listdir(REPLAY_DIR):
+        if fn.startswith(f"{pid}-{tier}-{seed}-"):
+            os.remove(os.path.join(REPLAY_DIR, fn))
     done = set()
     for i, v in enumerate(unknown):
         path = os.path.join(REPLAY_DIR, f"{pid}-{tier}-{seed}-{i}.json")
